@@ -177,6 +177,9 @@ func MemberName(i int, kind int) string {
 	case NameUTF8:
 		return "é中" + string(rune('0'+i))
 	}
+	if i >= 26 {
+		return fmt.Sprintf("m%d", i) // archives with very many members
+	}
 	return string(rune('a' + i))
 }
 
